@@ -41,13 +41,19 @@ type C16Scenario struct {
 	Ups   []C16Up   `json:"ups,omitempty"`   // C: termination
 	Log   []int     `json:"log,omitempty"`   // C: stored event types
 	ViaSubscribe bool `json:"via_subscribe,omitempty"`
+	// RegDuring: another task registers an unrelated upcaster while the upcasting replay runs
+	RegDuring bool `json:"reg_during,omitempty"`
 }
+
+// Type names are arbitrary non-empty strings; the pool includes names containing a separator-like
+// character, chosen so that different (source, target) pairs concatenate to the same string.
+var c16Names = []string{"a", "b:c", "a:b", "c", "b", "order.created/v2", "T6", "T7", "T8", "unknown"}
 
 func c16Name(i int) string {
 	if i < 0 {
 		return ""
 	}
-	return fmt.Sprintf("T%d", i)
+	return c16Names[i%len(c16Names)]
 }
 
 func genC16Op(rt *rapid.T, names int) C16Op {
@@ -103,6 +109,7 @@ func genC16(rt *rapid.T) core.Scenario {
 			sc.Log = append(sc.Log, rapid.IntRange(0, sc.Names-1).Draw(rt, "logType"))
 		}
 		sc.ViaSubscribe = rapid.IntRange(0, 2).Draw(rt, "viaSubscribe") == 2
+		sc.RegDuring = rapid.IntRange(0, 2).Draw(rt, "regDuring") == 2
 	}
 	sc.Tape = core.DrawTape(rt, 200)
 	return sc
@@ -265,6 +272,13 @@ func (sc *C16Scenario) Execute(t *testing.T) *core.Outcome {
 			for i, ty := range sc.Log {
 				store.Append(ctx, &eventbus.Event{Type: c16Name(ty), Data: json.RawMessage(fmt.Sprintf(`{"i":%d}`, i)), Timestamp: time.Unix(int64(i), 0)})
 			}
+			var registrar *simrt.Task
+			if sc.RegDuring {
+				registrar = simrt.GoNamed("registrar", func() {
+					eventbus.RegisterUpcastFunc(bus, "T7", "T8", func(d json.RawMessage) (json.RawMessage, string, error) { return d, "T8", nil })
+				})
+			}
+			defer simrt.Join(registrar)
 			if sc.ViaSubscribe {
 				eventbus.SubscribeWithReplay(ctx, bus, "sub", func(e E00) { delivered++ })
 			} else {
